@@ -8,7 +8,8 @@
    interleavings of concurrent clients are the histories quantified over here. *)
 From Coq Require Import List NArith ZArith Bool Sorting.Sorted.
 From K.Model Require Import C08.
-From K.Proof Require LruStore C08.
+From K.Proof Require LruStore LruStore_cells C08.
+Import K.Proof.LruStore_cells.   (* CellInv: the invariant on data cells and handles *)
 Import ListNotations.
 Local Open Scope N_scope.
 
@@ -114,6 +115,20 @@ Theorem C08_no_foreign_bytes : forall cap ops1 o k h ops2 n off bs eof,
     (forall k' b', assoc k' (k_blobs (c_core c2)) = Some b' -> b_cell b' = cl -> k' = k).
 Proof. exact Proof.C08.no_foreign_bytes. Qed.
 Print Assumptions C08_no_foreign_bytes.
+
+(* the content of a data cell changes only through a write issued on a handle bound to that cell
+   (or an Open-write on the blob that owns it); any other step leaves it as it is or nils it *)
+Theorem C08_cell_content_frame : forall fx c o cl,
+  CellInv (c_core c) -> cl < k_next (c_core c) -> writes_cell (c_core c) o cl = false ->
+  let kc' := c_core (fst (cstep Memory fx c o)) in
+  cell_of kc' cl = cell_of (c_core c) cl \/ cell_of kc' cl = None.
+Proof. exact (Proof.LruStore_cells.cell_frame Memory). Qed.
+Print Assumptions C08_cell_content_frame.
+
+(* its hypothesis holds in every reachable state *)
+Theorem C08_reachable_cells : forall fx cap ops, CellInv (c_core (fst (crun Memory fx (cinit cap) ops))).
+Proof. exact (Proof.LruStore_cells.crun_CellInv Memory). Qed.
+Print Assumptions C08_reachable_cells.
 
 (* cells are never shared between blobs and never reused (a new blob always gets the next id) *)
 Theorem C08_cells_distinct_fresh : forall cap ops,
